@@ -720,3 +720,17 @@ func (g *Gen) elemIdx(off, i string) string {
 	}
 	return "(idx " + off + " " + i + ")"
 }
+
+// mapLen: len(m) of a Go map is an uninterpreted function of the map and the current map version.
+func (g *Gen) mapLen(st *State, ref string) string {
+	if !g.declared["maplen"] {
+		g.declared["maplen"] = true
+		g.emit("(declare-fun maplen (Int Int) Int)")
+		g.emit("(assert (forall ((m Int) (v Int)) (! (<= 0 (maplen m v)) :pattern ((maplen m v)))))")
+	}
+	return "(maplen " + ref + " " + st.mapVer + ")"
+}
+
+func (g *Gen) bumpMaps(st *State) {
+	st.mapVer = g.fresh("mapver", "Int")
+}
